@@ -5,20 +5,21 @@
 #   unit : demo.rs is a unit-test module for starlark/src/tests (default)
 #   integ: demo.rs is an integration test for starlark/tests/<modname>.rs
 set -u
-WT="$1"; SD="$2"; MOD="$3"; MODE="${4:-unit}"
+WT="$1"; SD="$2"; MOD="$3"; MODE="${4:-unit}"; CRATE="${5:-starlark}"
 cd "$WT" || exit 2
 place_demo() {
-  if [ "$MODE" = "integ" ]; then mkdir -p starlark/tests; cp "$SD/demo.rs" starlark/tests/$MOD.rs; else cp "$SD/demo.rs" starlark/src/tests/$MOD.rs; echo "mod $MOD;" >> starlark/src/tests.rs; fi
+  if [ "$MODE" = "integ" ]; then mkdir -p $CRATE/tests; cp "$SD/demo.rs" $CRATE/tests/$MOD.rs; else cp "$SD/demo.rs" starlark/src/tests/$MOD.rs; echo "mod $MOD;" >> starlark/src/tests.rs; fi
 }
 run_demo() {
-  if [ "$MODE" = "integ" ]; then cargo test -p starlark --test $MOD --offline -j 8; else cargo test -p starlark --lib --offline -j 8 $MOD; fi
+  if [ "$MODE" = "integ" ]; then cargo test -p $CRATE --test $MOD --offline -j 8; else cargo test -p starlark --lib --offline -j 8 $MOD; fi
 }
 git checkout -q -- . ; git clean -fdq -e target
 git apply "$SD/patch.diff" || { echo "CONFIRM patch does not apply"; exit 2; }
 if [ "${SKIP_SUITE:-0}" != "1" ] || [ ! -f "$SD/confirm_patched_suite.log" ]; then
 cargo test -p starlark --lib --offline -j 8 > "$SD/confirm_patched_suite.log" 2>&1
+if [ "$CRATE" != "starlark" ]; then cargo test -p $CRATE --offline -j 8 >> "$SD/confirm_patched_suite.log" 2>&1; fi
 fi
-SUITE=$(grep -E "^test result" "$SD/confirm_patched_suite.log" | tail -1)
+SUITE=$(grep -E "^test result" "$SD/confirm_patched_suite.log" | tr '\n' ' ')
 place_demo
 run_demo > "$SD/confirm_patched_demo.log" 2>&1
 PDEMO=$(grep -E "^test result" "$SD/confirm_patched_demo.log" | tail -1)
